@@ -19,6 +19,8 @@ structure Cl where
   allow : Option Nat := none
   nextIdent : Nat := 1
   lag : Bool := false
+  armed : Option Nat := none                    -- node whose next snapshot is suspended after its capture
+  pending : Option (Nat × Nat × LTXFile) := none -- (primary, replica, captured snapshot) of a suspended stream
 
 def Cl.setNode (c : Cl) (k : Nat) (n : Node) : Cl := { c with nodes := c.nodes.setIfInBounds k n }
 
@@ -64,6 +66,37 @@ def settle (c : Cl) : Cl :=
           let (r', ok) := replicate p r 3
           (st.1.setIfInBounds i r', st.2 || !ok)) (c.nodes, false)
       { c with nodes := nodes, lag := lag }
+
+/-- with a suspended snapshot: the first connected replica whose session starts with a snapshot
+    gets no further than the capture -/
+def settleArmed (c : Cl) : Cl :=
+  let c0 := match c.holder, c.allow with
+    | none, some _ => settle c     -- lease changes first (no stream can be suspended before)
+    | _, _ => c
+  match c0.holder, c0.armed with
+  | some pk, some a =>
+    if pk ≠ a then settle c0 else
+    (match c0.nodes[pk]? with
+     | none => settle c0
+     | some p =>
+       let cand := (List.range c0.nodes.size).find? fun i =>
+         match c0.nodes[i]? with
+         | some r =>
+           i ≠ pk && r.up && r.net && r.eng.exit == 0 && p.eng.hasDB &&
+           (match streamDecide (·.pre) (if r.eng.hasDB then (r.eng.posTxid, r.eng.posChk) else (0, 0)) (p.eng.posTxid, p.eng.posChk) (openLTX p.eng) with
+            | .snapshot => true
+            | _ => false)
+         | none => false
+       match cand with
+       | none => settle c0
+       | some i =>
+         match snapshotFile p.eng p.ident with
+         | none => settle c0
+         | some f =>
+           -- every other replica proceeds; replica i waits for the suspended stream
+           let c1 := settle { c0 with nodes := c0.nodes.modify i fun r => { r with net := false } }
+           { c1 with nodes := c1.nodes.modify i (fun r => { r with net := true }), armed := none, pending := some (pk, i, f), lag := c1.lag })
+  | _, _ => settle c0
 
 def stamp (e : Eng) (ident : Nat) : Eng :=
   { e with ltx := e.ltx.map fun f => if f.nodeID = 0 then { f with nodeID := ident } else f }
@@ -135,7 +168,27 @@ def step (c : Cl) (line : String) : Cl × String :=
        let off := v == "off"
        let n := { n with net := !off }
        let n := if off ∧ c.holder ≠ some k then { n with eng := recoverEng n.eng } else n
-       (settle (c.setNode k n), "ok"))
+       (settleArmed (c.setNode k n), "ok"))
+  | ["snap-arm", k] =>
+    (match k.toNat? >>= fun k => c.nodes[k]?.map fun n => (k, n) with
+     | none => (c, "bad-op")
+     | some (k, n) =>
+       if !n.up || !n.eng.hasDB || c.armed.isSome then (c, "bad-op") else ({ c with armed := some k }, "ok"))
+  | ["snap-wait", k] =>
+    (match k.toNat? with
+     | none => (c, "bad-op")
+     | some k => (c, if (c.pending.map (·.1)) == some k then "paused" else "no"))
+  | ["snap-release", k] =>
+    (match k.toNat?, c.pending with
+     | some k, some (pk, ri, f) =>
+       if k ≠ pk then (c, "bad-op") else
+       (match c.nodes[ri]? with
+        | some r =>
+          let (e, _) := deliver r.eng r.ident f
+          (settle ({ c with pending := none, armed := none }.setNode ri { r with eng := e }), "ok")
+        | none => ({ c with pending := none }, "ok"))
+     | some _, none => ({ c with armed := none }, "ok")
+     | none, _ => (c, "bad-op"))
   | ["sync"] =>
     let c := settle c
     (c, if c.lag then "lag" else "ok")
